@@ -33,9 +33,15 @@ var commonTrusted = []string{
 }
 
 func main() {
-	if len(os.Args) < 3 {
+	if len(os.Args) < 3 || (os.Args[1] == "conc-child" && len(os.Args) < 4) {
 		fmt.Println("usage: vh <property> <tier> [--proof file] [--seed n] [--repo dir] [--replay file]")
 		os.Exit(2)
+	}
+	if os.Args[1] == "conc-child" {
+		seed, _ := strconv.ParseUint(os.Args[2], 10, 64)
+		rounds, _ := strconv.Atoi(os.Args[3])
+		concChild(seed, rounds)
+		return
 	}
 	prop, tier := os.Args[1], os.Args[2]
 	var proofFile, replayFile string
